@@ -290,26 +290,29 @@ rayon = {{ workspace = true }}
 
 
 def main():
-    harness = sys.argv[1]
-    nbins = int(sys.argv[2])
-    per = int(sys.argv[3])
-    seed = int(sys.argv[4]) if len(sys.argv) > 4 else 20260926
-    rng = random.Random(f"sched-{seed}")
-    cov = coverage_schedules(rng)
+    """usage: gen_sched.py <harness dir> <bins> <schedules per bin> [seed] [--start N --random-only]"""
+    args = [a for a in sys.argv[1:] if not a.startswith("--")]
+    harness = args[0]
+    nbins = int(args[1])
+    per = int(args[2])
+    seed = int(args[3]) if len(args) > 3 else 20260926
+    start = int(sys.argv[sys.argv.index("--start") + 1]) if "--start" in sys.argv else 0
+    random_only = "--random-only" in sys.argv
+    rng = random.Random(f"sched-{seed}-{start}" if start else f"sched-{seed}")
+    cov = [] if random_only else coverage_schedules(rng)
     scheds = list(cov)
     while len(scheds) < nbins * per:
         nt = rng.choice([2, 3, 3, 4, 4, 5, 6])
         bias = rng.randrange(len(COMPS))
         scheds.append(("random", [rand_sys(rng, bias) for _ in range(nt)]))
-    # Balance: heavy schedules first, round-robin over the bins.
-    chosen = scheds[: nbins * per] if len(cov) <= nbins * per else scheds[: nbins * per]
+    chosen = scheds[: nbins * per]
     chosen.sort(key=lambda s: -len(s[1]))
     bins = [[] for _ in range(nbins)]
     for i, s in enumerate(chosen):
         bins[i % nbins].append(s)
     names = []
     for b, ss in enumerate(bins):
-        name = f"schedsim-{b:02d}"
+        name = f"schedsim-{start + b:02d}"
         emit_bin(os.path.join(harness, name), name, ss, seed)
         names.append(name)
     total_tasks = sum(len(s[1]) for ss in bins for s in ss)
